@@ -26,6 +26,7 @@ type WOp struct {
 	Op    string `json:"op"`              // w | v | f (sendfile) | y (yield/sleep)
 	Sizes []int  `json:"sz,omitempty"`    // w: [n]; v: buffer sizes; f: [offset, len]; y: [microseconds]
 	Ctx   string `json:"ctx,omitempty"`   // "" application goroutine | open | data | close
+	Rel   bool   `json:"rel,omitempty"`   // w: the size is (bound - true backlog at the call) + Sizes[0]
 }
 
 // OutCase is a case of the outbound scenario.
@@ -193,6 +194,11 @@ func genOutCase(r *simrt.Rand, tier string, prop string) *OutCase {
 			case 1:
 				op.Ctx = "data"
 			}
+		}
+		if prop == "C17" && op.Op == "w" && op.Ctx == "" && r.Bool(0.45) {
+			// aim at the bound itself: the remaining budget at the moment of the call, +-1
+			op.Rel = true
+			op.Sizes = []int{r.Pick(-1, 0, 0, 0, -2, 1, -100)}
 		}
 		ops = append(ops, op)
 	}
@@ -496,7 +502,15 @@ func (s *outState) doOp(op WOp, writer int, seq *int) {
 			s.recs[[2]int{writer, *seq}] = &recInfo{size: total}
 		} else {
 			off := len(cs.Expected)
-			for _, n := range op.Sizes {
+			sizes := op.Sizes
+			if op.Rel && M > 0 && op.Op == "w" {
+				n := int(M-s.held()) + op.Sizes[0]
+				if n < 0 {
+					n = 0
+				}
+				sizes = []int{n}
+			}
+			for _, n := range sizes {
 				b := Payload(cs.ID, 'O', off+total, n)
 				bufs = append(bufs, b)
 				input = append(input, b...)
